@@ -933,6 +933,10 @@ class BayesianNetwork(DAG):
             raise TypeError("JPD must be an instance of JointProbabilityDistribution")
         factors = [cpd.to_factor() for cpd in self.get_cpds()]
         factor_prod = reduce(mul, factors)
+        # A JointProbabilityDistribution has no state names: compare by state position.
+        factor_prod = DiscreteFactor(
+            factor_prod.variables, factor_prod.cardinality, factor_prod.values
+        )
         JPD_fact = DiscreteFactor(JPD.variables, JPD.cardinality, JPD.values)
         if JPD_fact == factor_prod:
             return True
